@@ -4,17 +4,23 @@ SyltScope (TLA+) states Sylt's lexical scoping as a scope-stack machine (enter/e
 bodies, case arms, loop bodies; declare; use -> innermost match, else a global of the current module or std, else
 unresolved; `m.x` -> the globals of module m; the entry is an implicit use of `start` at the main module's top level) and
 defines
-  * 17 binder skeletons (<= 6 renamable binders: parameters, block-/branch-/loop-locals, case bindings, nested and
+  * 23 binder skeletons (<= 7 renamable binders: parameters, block-/branch-/loop-locals, case bindings, nested and
     recursive functions, module globals; scopes inside GLOBAL INITIALISERS that are not function literals: if / case
-    bodies, a block, a loop, function literals in a list / tuple / blob literal; a TWO-FILE program) with SLOTS at every
-    interesting position,
+    bodies, a block, a loop, function literals in a list / tuple / blob literal; a TWO-FILE program; a recursive LOCAL
+    FUNCTION under each of the five ways of declaring it - `::`, `:=`, `: T :`, `: T =`, `:= (fn ..)` - with a global
+    function, a parameter and an enclosing local of its type around it; BLOB LITERALS whose implicit `self` is a binder
+    declared for the method fields only: data fields before / between / after methods, a parenthesised method, a
+    nested literal, a literal built inside a method of another blob) with SLOTS at every interesting position,
   * Resolve / Legal(naming) by running the machine; the namings: all maps into a pool of 2 (quick) or 3 (thorough) names,
     AllDistinct, MaxShadow, every single-pair merge, and every binder under every ROLE NAME (`start`, `print`, `list`,
     `len`, the type `E`) - type, std and namespace names are binders with a fixed name, so legality is decided by the machine,
   * for every (binder, slot) pair whether the binder is visible there and, if not, the position class; the use is planted in
     17 SYNTACTIC POSITIONS (argument, `ret f(v)`, `ret v`, condition, loop condition, callee, operand, negation, `<=>`,
     tuple / list / blob-field element, index base, field base, assignment target and value, case scrutinee) and in
-    expression slots (initialiser, elif and loop condition), in void and value-returning functions and at module level.
+    expression slots (initialiser, elif and loop condition, data fields of blob literals), in void and value-returning
+    functions and at module level; and as DEAD CODE behind an unconditional jump: `ret` / `ret 0` / break / continue
+    at the slot itself, and wrapped (own function body, do block, if / else body, loop body, case arm, case else
+    behind ret / break / continue) - jumps are no scope events, the scope rules hold for dead code as well.
 MC_Scope runs the machine action by action over skeleton x naming (spec-level invariants and ASSUMEs: exit 2 when one
 fails) and emits the cases; for SyltGen's pairwise-nesting programs (MC_ScopeGen: the universe of C01/C08) it computes a
 heavily shadowing naming and asserts its legality with the machine.  The harness renders (the printer's `naming` knob),
@@ -28,12 +34,13 @@ compiles and records; Trace_Scope re-derives the universe, asserts coverage and 
 import json
 import os
 import random
+from concurrent.futures import ThreadPoolExecutor
 import vlib
 
 PID = "C09"
 GENERATOR_WHYS = ("base-rejected", "rejected-by-parser")
 MACHINE_ACTIONS = ("EnterFn", "ExitFn", "EnterBlock", "ExitBlock", "EnterBranch", "ExitBranch", "EnterArm", "ExitArm",
-                   "EnterLoopBody", "ExitLoopBody", "Declare", "Use", "QualifiedUse", "EnterModule", "EnterTop", "Finish", "CheckPlanted")
+                   "EnterLoopBody", "ExitLoopBody", "EnterMethod", "ExitMethod", "Declare", "Use", "QualifiedUse", "EnterModule", "EnterTop", "Finish", "CheckPlanted")
 
 
 def dedupe(records, key):
@@ -62,7 +69,8 @@ def signature(rej, case):
     return ["C09|%s|gen|%s|%s|%s" % (rej["why"], i.get("o"), i.get("i"), i.get("h"))]
 
 
-def validate(wd, name, recs, pool, gen_file, full, workers=8):
+def validate(wd, name, recs, pool, gen_file, full, workers=4, xmx="8g"):
+    """(runs of this function overlap: every run has its own TLC metadir under wd/<name>.d)"""
     tf = os.path.join(wd, name + "-trace.ndjson")
     vlib.write_ndjson(tf, recs)
     env = {"POOL": pool, "TRACE": tf}
@@ -70,7 +78,9 @@ def validate(wd, name, recs, pool, gen_file, full, workers=8):
         env["GEN"] = gen_file
     if full:
         env["FULL"] = "1"
-    v = vlib.tlc("Trace_Scope", wd=wd, env=env, tags=("REJECT",), workers=workers, timeout=2400, xmx="12g",
+    sub = os.path.join(wd, name + ".d")
+    os.makedirs(sub, exist_ok=True)
+    v = vlib.tlc("Trace_Scope", wd=sub, env=env, tags=("REJECT",), workers=workers, timeout=3600, xmx=xmx,
                  out_file=os.path.join(wd, "tlc-%s.out" % name))
     rejects = list({p["rec"]: p for (_, p) in v.records}.values())
     return v, rejects
@@ -87,6 +97,46 @@ def record(wd, name, cases, env=None):
     return recs
 
 
+def in_thread(fn, *a, **kw):
+    """Run fn in a worker thread; a tool error raised there (sys.exit) is handed back instead of ending the thread
+    silently, so that the main thread can raise it at the point where the sequential check would have."""
+    try:
+        return ("ok", fn(*a, **kw))
+    except BaseException as e:  # noqa (SystemExit from vlib.tool_error included)
+        return ("err", e)
+
+
+def outcome(fut):
+    kind, val = fut.result()
+    if kind == "err":
+        raise val
+    return val
+
+
+def generated_programs(wd, tier, seed):
+    """SyltGen's pairwise-nesting programs and their shadowing naming (two TLC runs in a row)."""
+    keep = 20 if tier == "quick" else 1
+    big = "8g" if tier == "quick" else "12g"          # (the heap sizes of rounds 1-2; not raised)
+    sub = os.path.join(wd, "gen.d")
+    os.makedirs(sub, exist_ok=True)
+    ra = vlib.tlc("MC_ScopeGen", wd=sub, env={"KEEP": keep, "SEED": seed % 1000}, workers=4, timeout=3600, xmx=big,
+                  coverage=False, out_file=os.path.join(wd, "tlc-programs.out"))
+    if not ra.ok:
+        return ra, None, None, None, keep
+    seen = set()
+    programs = []
+    for (_, c) in ra.records:
+        h = vlib.sha(c["tops"])
+        if h not in seen:
+            seen.add(h)
+            programs.append({"id": c["id"], "tops": c["tops"]})
+    gen_file = os.path.join(wd, "gen-programs.ndjson")
+    vlib.write_ndjson(gen_file, programs)
+    rg = vlib.tlc("MC_Scope", wd=sub, env={"MODE": "gen", "GEN": gen_file}, workers=4, timeout=3600, xmx=big,
+                  out_file=os.path.join(wd, "tlc-gen.out"))
+    return ra, rg, programs, gen_file, keep
+
+
 def run(ctx):
     tier = ctx.tier
     wd = vlib.workdir(PID)
@@ -94,6 +144,8 @@ def run(ctx):
     verdicts = vlib.Verdicts(PID)
     vlib.build_harness(["c09"])
     pool = 2 if tier == "quick" else 3
+    overlap = tier == "quick"
+    ctl_xmx = "4g" if overlap else "8g"
     gen_file = None
     nshadowing = 0
 
@@ -108,7 +160,12 @@ def run(ctx):
         cases = rp.get("context", []) + [case]
     else:
         # 1. the scope machine over skeleton x naming: spec-level invariants, ASSUMEs, emission
-        r = vlib.tlc("MC_Scope", wd=wd, env={"MODE": "emit", "POOL": pool}, workers=8, timeout=1500,
+        #    (the generated programs of step 2 are prepared by two further TLC runs at the same time)
+        #    (quick tier only: thorough has the time to run one JVM after the other, and its JVMs are big)
+        pool_ex = ThreadPoolExecutor(max_workers=2)
+        if overlap:
+            f_gen = pool_ex.submit(in_thread, generated_programs, wd, tier, ctx.seed)
+        r = vlib.tlc("MC_Scope", wd=wd, env={"MODE": "emit", "POOL": pool}, workers=4, timeout=3600,
                      out_file=os.path.join(wd, "tlc-emit.out"))
         vlib.require_tlc_ok(r, "MC_Scope emit (scope machine, invariants, universe assumptions)")
         for a in MACHINE_ACTIONS:
@@ -126,10 +183,14 @@ def run(ctx):
         nlegal = sum(len(v) for v in legal.values())
         nshadowing = sum(1 for v in legal.values() for p in v if len(set(p["nm"])) < len(p["nm"]))
         n_oos = sum(1 for p in ooss if not p["inscope"])
-        if len(skels) < 17 or any(len(legal.get(sk, [])) < 3 for sk in skels):
+        if len(skels) < 23 or any(len(legal.get(sk, [])) < 3 for sk in skels):
             vlib.tool_error("vacuity: a skeleton has fewer than 3 legal namings")
         nspecial = sum(1 for v_ in legal.values() for p in v_ if "special" in p["tags"])
-        if nlegal < (400 if tier == "quick" else 1200) or n_oos < 2500 or len(ooss) - n_oos < 1200 or nspecial < 200:
+        dead = [p for p in ooss if p["form"].startswith("dead-")]
+        selfs = [p for p in ooss if p["bk"] == "self"]
+        if (nlegal < (600 if tier == "quick" else 1500) or n_oos < 4000 or len(ooss) - n_oos < 1800 or nspecial < 300
+                or sum(1 for p in dead if not p["inscope"]) < 1200 or sum(1 for p in selfs if not p["inscope"]) < 100
+                or sum(1 for p in selfs if p["inscope"]) < 30):
             vlib.tool_error("vacuity: %d legal namings, %d out-of-scope and %d in-scope planted uses" % (nlegal, n_oos, len(ooss) - n_oos))
         cases = []
         for sk in sorted(skels):
@@ -145,28 +206,19 @@ def run(ctx):
                position_classes=sorted({p["cls"] for p in ooss}), machine_action_counts={a: r.coverage[a][1] for a in MACHINE_ACTIONS},
                spec_assumptions_checked=["SkeletonsWellFormed", "AllDistinctLegal", "MaxShadowLegal", "NamesOnlyCompared",
                                          "OutOfScopeUnresolved", "EveryBinderHasBase", "ClassesCovered", "FormsCovered", "SpecialCovered",
+                                         "DeadCovered", "LocalRecCovered",
                                          "StackOk", "NoStuck", "DoneOk", "TraceComplete"])
 
         # 2. SyltGen's pairwise-nesting programs (same universe as MC_Annot / MC_Sem emit; quick: a seeded 1-in-20 sample
         #    of the (outer, position, inner) triples, in all their fillings and harness contexts) and their shadowing naming
-        keep = 20 if tier == "quick" else 1
-        ra = vlib.tlc("MC_ScopeGen", wd=wd, env={"KEEP": keep, "SEED": ctx.seed % 1000}, workers=8, timeout=1800, xmx="12g",
-                      coverage=False, out_file=os.path.join(wd, "tlc-programs.out"))
+        if not overlap:
+            f_gen = pool_ex.submit(in_thread, generated_programs, wd, tier, ctx.seed)
+        ra, rg, programs, gen_file, keep = outcome(f_gen)
+        pool_ex.shutdown()
         vlib.require_tlc_ok(ra, "MC_ScopeGen (program universe)")
-        seen = set()
-        programs = []
-        for (_, c) in ra.records:
-            h = vlib.sha(c["tops"])
-            if h not in seen:
-                seen.add(h)
-                programs.append({"id": c["id"], "tops": c["tops"]})
         universe = len(programs) * keep
         if len(programs) < (300 if tier == "quick" else 15000):
             vlib.tool_error("vacuity: only %d generated programs" % len(programs))
-        gen_file = os.path.join(wd, "gen-programs.ndjson")
-        vlib.write_ndjson(gen_file, programs)
-        rg = vlib.tlc("MC_Scope", wd=wd, env={"MODE": "gen", "GEN": gen_file}, workers=8, timeout=2400, xmx="12g",
-                      out_file=os.path.join(wd, "tlc-gen.out"))
         vlib.require_tlc_ok(rg, "MC_Scope gen (shadowing naming of the generated programs, legality asserted)")
         gens = {p["rec"]: p for (_, p) in rg.records}
         if len(gens) != len(programs) or rg.coverage.get("GenEmit", (0, 0))[1] < len(programs):
@@ -181,9 +233,47 @@ def run(ctx):
                names_per_program=[min(g["ncolours"] for g in gens.values()), max(g["ncolours"] for g in gens.values())],
                binders_per_program=[min(g["nbinders"] for g in gens.values()), max(g["nbinders"] for g in gens.values())])
 
-    # 3. conformance: render, compile, record; TLC re-derives the universe and decides
+    # 3. conformance: render, compile, record; TLC re-derives the universe and decides.  The negative controls of
+    #    step 4 run at the same time (own harness runs, own TLC runs); their outcome is looked at after the verdicts.
     recs = record(wd, "main", cases)
-    v, rejects = validate(wd, "main", recs, pool, gen_file, full=not ctx.replay)
+    controls = {}
+    ctl_ex = ThreadPoolExecutor(max_workers=3 if overlap else 1)
+    start_controls = None
+    if not ctx.replay:
+        rnd = random.Random(ctx.seed)
+        nam_cases = [c for c in cases if c["t"] == "nam"]
+        oos_cases = [c for c in cases if c["t"] == "oos"]
+        gen_cases = [c for c in cases if c["t"] == "gen"]
+        sub = nam_cases + rnd.sample(gen_cases, 40)
+
+        def salted():
+            srecs = record(wd, "neg-salt", sub, env={"C09_STUB": "salt"})
+            return validate(wd, "neg-salt", srecs, pool, gen_file, full=False, workers=2, xmx=ctl_xmx)
+
+        def accepting():
+            arecs = record(wd, "neg-accept", oos_cases, env={"C09_STUB": "accept"})
+            return validate(wd, "neg-accept", arecs, pool, None, full=False, workers=2, xmx=ctl_xmx)
+
+        first_nam = next(i for i, c in enumerate(cases) if c["t"] == "nam")
+        first_gen = next(i for i, c in enumerate(cases) if c["t"] == "gen")
+        dropped = json.loads(json.dumps(recs[first_nam]))
+        dropped["results"] = dropped["results"][:-1]
+        renamed = json.loads(json.dumps(recs[first_gen]))
+        renamed["shadow"][-1]["n"] = "zz"
+        foreign = json.loads(json.dumps(next(x for x in recs if x["t"] == "oos")))
+        foreign["form"] = "callee" if foreign["form"] != "callee" else "scrutinee"
+        foreign["slot"] = 19
+        corrupt = {"naming-dropped": [dropped], "other-naming-used": [renamed], "not-a-pair": [foreign],
+                   "record-missing": recs[:first_gen][1:]}
+        def start_controls():
+            controls["salt"] = ctl_ex.submit(in_thread, salted)
+            controls["accept"] = ctl_ex.submit(in_thread, accepting)
+            for nm, trace in corrupt.items():
+                controls[nm] = ctl_ex.submit(in_thread, validate, wd, "neg-" + nm, trace, pool,
+                                             gen_file if nm == "other-naming-used" else None, nm == "record-missing", 2, ctl_xmx)
+        if overlap:
+            start_controls()
+    v, rejects = validate(wd, "main", recs, pool, gen_file, full=not ctx.replay, xmx="8g" if tier == "quick" else "12g")
     vlib.require_tlc_ok(v, "Trace_Scope validate")
     fired = sum(v.coverage.get(a, (0, 0))[1] for a in ("VNam", "VOos", "VGen"))
     if fired < len(recs) or (not ctx.replay and any(v.coverage.get(a, (0, 0))[1] == 0 for a in ("VNam", "VOos", "VGen"))):
@@ -220,43 +310,27 @@ def run(ctx):
                         "%d of them skeleton cases" % (len(generator_problems), nskel_problems))
 
     if not ctx.replay:
-        # 4. negative controls (binding demonstration)
-        rnd = random.Random(ctx.seed)
-        nam_cases = [c for c in cases if c["t"] == "nam"]
-        oos_cases = [c for c in cases if c["t"] == "oos"]
-        gen_cases = [c for c in cases if c["t"] == "gen"]
+        # 4. negative controls (binding demonstration; in the quick tier they were started above)
+        if not overlap:
+            start_controls()
         # (i) a perturbed digest for one naming per skeleton / for the shadowing rendering: every record must be rejected
-        sub = nam_cases + rnd.sample(gen_cases, 40)
-        srecs = record(wd, "neg-salt", sub, env={"C09_STUB": "salt"})
-        sv, srej = validate(wd, "neg-salt", srecs, pool, gen_file, full=False, workers=4)
+        sv, srej = outcome(controls["salt"])
         vlib.require_tlc_ok(sv, "negative control (salted digests)")
         if len(srej) != len(sub):
             vlib.tool_error("negative control accepted: only %d of %d records with a perturbed digest were rejected" % (len(srej), len(sub)))
         # (ii) a compiler that accepts every planted use: every out-of-scope pair must be rejected
-        arecs = record(wd, "neg-accept", oos_cases, env={"C09_STUB": "accept"})
-        av, arej = validate(wd, "neg-accept", arecs, pool, None, full=False, workers=4)
+        av, arej = outcome(controls["accept"])
         vlib.require_tlc_ok(av, "negative control (accept stub)")
         n_oos = ev.cov["planted_out_of_scope"]
         if len(arej) != n_oos or any(x["why"] != "out-of-scope-accepted" for x in arej):
             vlib.tool_error("negative control accepted: an always-accepting compiler was rejected on %d of %d out-of-scope uses" % (len(arej), n_oos))
         # (iii) corrupted traces must stop TLC (Assert / completeness assumption)
-        first_nam = next(i for i, c in enumerate(cases) if c["t"] == "nam")
-        first_gen = next(i for i, c in enumerate(cases) if c["t"] == "gen")
-        dropped = json.loads(json.dumps(recs[first_nam]))
-        dropped["results"] = dropped["results"][:-1]
-        renamed = json.loads(json.dumps(recs[first_gen]))
-        renamed["shadow"][-1]["n"] = "zz"
-        foreign = json.loads(json.dumps(next(x for x in recs if x["t"] == "oos")))
-        foreign["form"] = "callee" if foreign["form"] != "callee" else "scrutinee"
-        foreign["slot"] = 19
-        corrupt = {"naming-dropped": [dropped], "other-naming-used": [renamed], "not-a-pair": [foreign],
-                   "record-missing": recs[:first_gen][1:]}
-        for nm, trace in corrupt.items():
-            cv, _ = validate(wd, "neg-" + nm, trace, pool, gen_file if nm == "other-naming-used" else None,
-                             full=(nm == "record-missing"), workers=2)
+        for nm in corrupt:
+            cv, _ = outcome(controls[nm])
             if cv.ok:
                 vlib.tool_error("negative control accepted: corrupted trace '%s' passed validation" % nm)
         ev.set(negative_controls_rejected=len(srej) + len(arej) + len(corrupt))
+    ctl_ex.shutdown()
 
     ev.add("states", v.distinct)
     ev.add("transitions", v.generated)
@@ -278,11 +352,14 @@ def run(ctx):
     ev.set(traces_validated_against_impl=len(recs), programs=compiles, evaluations=compiles, distinct_nontrivial=nontrivial,
            records={"nam": len(nam_recs), "oos": len(oos_recs), "gen": len(gen_recs)}, rejects=len(rejects), pool=pool,
            rejected_by_compiler=len(generator_problems), exhaustive=(tier == "thorough" and not ctx.replay),
-           rule="17 binder skeletons (SyltScope!Skel, incl. scopes in non-function global initialisers and a two-file program) x {every "
-                "map of the <= 6 binders into a pool of %d names, all-distinct, max-shadow, every single pair merged, every binder under each "
+           rule="23 binder skeletons (SyltScope!Skel, incl. scopes in non-function global initialisers, a two-file program, a recursive "
+                "local function under 5 declaration kinds, blob literals with `self` as a binder of their method fields) x {every "
+                "map of the <= 7 binders into a pool of %d names (4 of the 5 declaration-kind twins without this part), all-distinct, "
+                "max-shadow, every single pair merged, every binder under each "
                 "of 5 role names (start, print, list, len, E)}, legality decided by the scope machine, every legal naming compiled; every "
                 "(binder, slot, syntactic position) triple of every skeleton as a planted use (in scope and well typed: must be accepted; "
-                "out of scope: must be rejected, in all 17 positions); %s programs of SyltGen's pairwise-nesting universe rendered "
+                "out of scope, or `self` where it means another instance: must be rejected; 17 positions + 11 dead-code forms behind "
+                "ret / break / continue); %s programs of SyltGen's pairwise-nesting universe rendered "
                 "all-distinct and with the specification's greedy shadowing naming. Non-trivial and distinct: legal namings that really "
                 "share a name between two binders or carry a role name + out-of-scope planted uses + generated programs (each shares "
                 "names: <= half as many names as binders), counted by case id" % (pool, "all" if tier == "thorough" else "a seeded 1-in-20 sample of the"),
@@ -291,7 +368,10 @@ def run(ctx):
               "legal namings: the property does not say which declaration wins",
               "type, field, variant and std names are not renamed themselves (variables may take their names); `start` keeps its name; "
               "`self` is a reserved word and a case binding must start with a lower-case letter (grammar), so these are not offered as names; "
-              "a local hiding a namespace name (K4) is not a legal naming and therefore not tried",
+              "a local named like a namespace that is USED as a namespace in its scope is not a legal naming; a local named `list` that is "
+              "the base of a field access is legal and rejected by sylt (K4, known finding)",
+              "`self` planted where it means the instance of ANOTHER blob literal is written as `self.<f>` with a field only the intended "
+              "literal's type has: the expected rejection then comes from typing the resolved instance",
               "the printer renders binder ids through the `naming` map faithfully (a wrong rendering shows up as a rejected base program: exit 2)",
               "FNV digest of the emitted Lua text stands for byte identity")
     rc = verdicts.finish()
